@@ -38,6 +38,9 @@ func checkC13(c *Ctx) {
 		fmt.Sprintf("%d send(s), all directly in Panic", len(sites)), fmt.Sprintf("Panic reaches %d MIDI sends but only %d are in its own body: a callee emits something", len(ff.sends), len(sites)))
 	var returns []*ssa.BasicBlock
 	for _, b := range fn.Blocks {
+		if b == fn.Recover {
+			continue // only reached when a deferred call recovers a panic; Panic defers no recover
+		}
 		if _, ok := b.Instrs[len(b.Instrs)-1].(*ssa.Return); ok {
 			returns = append(returns, b)
 		}
@@ -188,7 +191,7 @@ func ruleExternalReset(c *Ctx, dv *dev, fn *ssa.Function, rule string) {
 			}
 			key := "device.Panic/external-highlight-reset"
 			pos := c.P.Pos(st.Pos())
-			mk, isMake := st.Val.(*ssa.MakeMap)
+			mk, isMake := throughCtor(c.P, st.Val).(*ssa.MakeMap)
 			if !isMake {
 				c.Bad(rule, key, pos, "externalNoteTracker is not replaced by a fresh map")
 				continue
